@@ -320,6 +320,10 @@ func GenLayout(r *rand.Rand, cfg LayoutCfg, id, pkgRel string) *Scenario {
 					// line that detaches the prose from the method - the defect family of KF-C11-doc-detached-by-
 					// go-generate, see DESIGN 10.3)
 					bm.DocLines = append(bm.DocLines, "// "+g.c("embedded method doc "+bm.Name))
+					for k := range bm.Notations {
+						bm.DocOrder = append(bm.DocOrder, fmt.Sprintf("n%d", k))
+					}
+					bm.DocOrder = append(bm.DocOrder, "d0")
 				}
 				g.vec = append(g.vec, "embeds-plain-notated")
 			}
